@@ -142,7 +142,7 @@ class Gen:
                 page.append(self.comp_node(page_scope, None, 0, in_fill=False))
         wrap = 0
         if P.get("page_wrap") and not py_entry:
-            wrap = ch.draw(5, "page_wrap")
+            wrap = ch.draw(6, "page_wrap")
             css_ph = ["ph", "{% component_css_dependencies %}"]
             js_ph = ["ph", "{% component_js_dependencies %}"]
             if wrap == 1:      # head + body
@@ -153,8 +153,29 @@ class Gen:
                 page = [css_ph] + page + [js_ph]
             elif wrap == 4:    # body only, upper-case-free variant with whitespace in the end tag
                 page = [["raw", "<body>"]] + page + [["raw", "</body >"]]
+            elif wrap == 5:    # a LAYOUT COMPONENT whose template has the two placeholders as its root elements (so
+                # they carry the component's data-djc-id attribute) and the page as its default slot (seeded C04d-1)
+                lay = next((c for c in self.comps if c.get("layout")), None)
+                if lay is None and P.get("reuse_comps"):
+                    wrap = 3   # a page over an existing class library that has no layout component
+                    page = [css_ph] + page + [js_ph]
+                else:
+                    if lay is None:
+                        lay = self.layout_cd(css_ph, js_ph)
+                        self.comps.append(lay)
+                    page = [["comp", lay["name"], [], False, "implicit", page, False]]
         return {"mode": mode, "comps": self.comps, "page": page, "ctx": ctx, "py_entry": py_entry, "page_wrap": wrap,
                 "features": sorted(f for f, v in self.feats.items() if v)}
+
+    def layout_cd(self, css_ph, js_ph):
+        n = len(self.comps)
+        cd = {"name": f"c{n}", "label": f"L{n}", "cls": None, "slots": [["body", True, False, []]], "default_slot": "body",
+              "injects": [], "echo_id": False, "hooks": False, "tmpl_via": "template", "js": None, "css": None,
+              "media_js": [], "media_css": [], "tryfail": False, "nested_ok": False, "reseed": False, "layout": True,
+              "tmpl": [css_ph, ["slot", "body", True, False, [], []], js_ph]}
+        if self.P.get("assets"):
+            cd.update({"cls": f"Layout{n}", "base": None, "media_extend": True})
+        return cd
 
     def py_entry_node(self):
         """A page that is one component tag with literal kwargs and text-only fills: it can also be rendered
@@ -368,7 +389,7 @@ class Gen:
 
     def callees(self, owner):
         lo = 0 if owner is None else owner + 1
-        return [j for j in range(lo, len(self.comps)) if self.comps[j] is not None]
+        return [j for j in range(lo, len(self.comps)) if self.comps[j] is not None and not self.comps[j].get("layout")]
 
     # -- slot ---------------------------------------------------------------
     def slot_node(self, scope, owner, depth, in_fill):
